@@ -40,3 +40,42 @@ Proof. intros pc size recnum d fuel cur Hc H. split; intros acc; [apply loop_ext
 Theorem C04_dtc_decoder : forall cfg sub a d, ok_res (rdtci_decode cfg sub a d).
 Proof. exact rdtci_decode_ok. Qed.
 Print Assumptions C04_dtc_decoder.
+
+(* ---- read off the code's own decision trees (regenerated each run, Gen/Fn_SimpleInt.v): for these client methods, whatever the
+   arguments and whatever data bytes a positive response carries, every path - argument validation, request building, interpretation,
+   echo comparison - ends in a value or in a documented exception class ---- *)
+From UDS Require Import Gen.Fn_SimpleInt Proofs.Tie_simple_doc.
+
+Theorem C04_code_ecu_reset : forall t d, d <> [] -> documented (fn_ecu_reset_interpret t d).
+Proof. exact doc_ecu_reset. Qed.
+Print Assumptions C04_code_ecu_reset.
+Theorem C04_code_routine_control : forall rid ct data d, d <> [] -> documented (fn_routine_control_interpret rid ct data d).
+Proof. exact doc_routine_control. Qed.
+Print Assumptions C04_code_routine_control.
+Theorem C04_code_tester_present : forall  d, d <> [] -> documented (fn_tester_present_interpret  d).
+Proof. exact doc_tester_present. Qed.
+Print Assumptions C04_code_tester_present.
+Theorem C04_code_change_session : forall sn d, d <> [] -> documented (fn_change_session_interpret sn d).
+Proof. exact doc_change_session. Qed.
+Print Assumptions C04_code_change_session.
+Theorem C04_code_change_session_2006 : forall sn d, d <> [] -> documented (fn_change_session_2006_interpret sn d).
+Proof. exact doc_change_session_2006. Qed.
+Print Assumptions C04_code_change_session_2006.
+Theorem C04_code_request_seed : forall level data d, d <> [] -> documented (fn_request_seed_interpret level data d).
+Proof. exact doc_request_seed. Qed.
+Print Assumptions C04_code_request_seed.
+Theorem C04_code_send_key : forall level key d, d <> [] -> documented (fn_send_key_interpret level key d).
+Proof. exact doc_send_key. Qed.
+Print Assumptions C04_code_send_key.
+Theorem C04_code_access_timing_parameter : forall a rc d, d <> [] -> documented (fn_access_timing_parameter_interpret a rc d).
+Proof. exact doc_access_timing_parameter. Qed.
+Print Assumptions C04_code_access_timing_parameter.
+Theorem C04_code_transfer_data : forall sq data d, d <> [] -> documented (fn_transfer_data_interpret sq data d).
+Proof. exact doc_transfer_data. Qed.
+Print Assumptions C04_code_transfer_data.
+Theorem C04_code_control_dtc_setting : forall t data d, d <> [] -> documented (fn_control_dtc_setting_interpret t data d).
+Proof. exact doc_control_dtc_setting. Qed.
+Print Assumptions C04_code_control_dtc_setting.
+Theorem C04_code_clear_dtc : forall g m d, d <> [] -> documented (fn_clear_dtc_interpret g m d).
+Proof. exact doc_clear_dtc. Qed.
+Print Assumptions C04_code_clear_dtc.
